@@ -61,25 +61,34 @@ SaAllowed(flags, pd, form, ovr) == UNION { SaObs(pd, v) : v \in Verdicts(flags, 
 
 ---------------------------------------------------------------------------
 (* (b) RTSP authentication (DESCRIBE).  method 0 = Basic, 1 = Digest.                            *)
+(* The challenge machine spans several connections of one server: every step names the           *)
+(* connection it is made on, `issued` counts the challenges each connection has received.        *)
+RaConns == {"c1", "c2"}
 BasicCreds  == {"basicRight", "basicWrongPass", "basicWrongUser", "basicBadB64", "basicNoColon"}
 DigestCreds == {"digestRight", "digestWrongPass", "digestWrongMethod", "digestOtherUri"}
 Creds == {"none", "bearer"} \cup BasicCreds \cup DigestCreds
-(* nonce used by Digest credentials: the last / first challenge of this connection, a challenge  *)
-(* the server gave to another connection, or a value the server never issued                    *)
-Nonces == {"last", "first", "other", "forged"}
+(* nonce used by Digest credentials: the last / first challenge of THIS connection, the last      *)
+(* challenge the server gave to the other live connection, a challenge it gave to a connection    *)
+(* that has been closed since, a value the server never issued, the empty string                  *)
+Nonces == {"last", "first", "otherLive", "otherClosed", "forged", "empty"}
 
-\* "yes" | "no" | "either"
+(* "yes" | "no" | "either".  Valid Digest credentials answer a challenge of the connection they   *)
+(* are sent on: a response computed for a nonce the server never gave to this connection (one it   *)
+(* gave to somebody else, live or gone, or nobody) is not an answer to this connection's          *)
+(* challenge, whoever computed it.  Only the superseded own challenge is left open (RFC 7616      *)
+(* lets a server accept it or answer stale).                                                     *)
 Valid(method, cred, nonce, issued) ==
   IF method = 0 THEN (IF cred = "basicRight" THEN "yes" ELSE "no")
   ELSE IF cred # "digestRight" THEN "no"
   ELSE IF nonce = "last" THEN (IF issued >= 1 THEN "yes" ELSE "no")
   ELSE IF nonce = "first" THEN (IF issued = 1 THEN "yes" ELSE IF issued > 1 THEN "either" ELSE "no")
-  ELSE IF nonce = "other" THEN "either"
   ELSE "no"
 
 Scheme(method) == IF method = 0 THEN "Basic" ELSE "Digest"
 
 \* is response o to step s allowed on a connection that has received `issued` challenges?
+\* (fresh: the nonce of the challenge differs from every nonce the server has issued before, to
+\* whatever connection)
 RaStepOk(enable, method, issued, s, o) ==
   IF ~enable THEN o.sdp /\ o.code = 200
   ELSE IF s.cred = "none"
@@ -91,30 +100,97 @@ RaStepOk(enable, method, issued, s, o) ==
          [] v = "no"  -> ~o.sdp /\ o.code # 200
          [] OTHER     -> (o.sdp /\ o.code = 200) \/ (~o.sdp /\ o.code # 200)
 
+RaIssued0 == [k \in RaConns |-> 0]
+RaIssue(enable, issued, s) == IF enable /\ s.cred = "none" THEN [issued EXCEPT ![s.conn] = @ + 1] ELSE issued
+RECURSIVE RaIssuedAfter(_, _, _)
+RaIssuedAfter(steps, i, issued) ==      \* challenges per connection after steps[1..i] (authentication enabled)
+  IF i = 0 THEN issued ELSE RaIssue(TRUE, RaIssuedAfter(steps, i - 1, issued), steps[i])
+
 RECURSIVE RaOk(_, _, _, _, _)
-\* steps: sequence of records with the request (cred, nonce) and the observed response
+\* steps: sequence of records with the request (conn, cred, nonce) and the observed response
 RaOk(enable, method, steps, i, issued) ==
   IF i > Len(steps) THEN TRUE
-  ELSE /\ RaStepOk(enable, method, issued, steps[i], steps[i])
-       /\ RaOk(enable, method, steps, i + 1, IF enable /\ steps[i].cred = "none" THEN issued + 1 ELSE issued)
+  ELSE /\ steps[i].conn \in RaConns /\ steps[i].nonce \in Nonces \cup {""}
+       /\ RaStepOk(enable, method, issued[steps[i].conn], steps[i], steps[i])
+       /\ RaOk(enable, method, steps, i + 1, RaIssue(enable, issued, steps[i]))
 
 ---------------------------------------------------------------------------
 (* (c) kick, black-list                                                                          *)
+(* the kicked session is the one named by the id: it is disconnected (an HLS session: its        *)
+(* session id stops being served); an unknown id disconnects nothing                             *)
+KickPds == {"rtmp_pub", "rtmp_sub", "flv_sub", "ts_sub", "rtsp_pub", "rtsp_sub", "hls_sub"}
 KickOk(which, had, ok, closed) ==
   /\ had
   /\ IF which = "real" THEN ok /\ closed ELSE ~ok /\ ~closed
 
-(* black-list: address -> expiry; a probe k seconds after Add(a, dur) of the listed address a   *)
-(* gets nothing before expiry and content after it (the instant k = dur is not fixed); another  *)
-(* address always gets content.                                                                 *)
+(* black-list: address -> expiry; a probe k seconds after Add(a, dur), Add(c, dur + 5) gets      *)
+(* nothing for a listed address before its expiry and content after it (the instant k = dur is   *)
+(* not fixed); another address always gets content.  "Content" is every file the HLS server      *)
+(* offers: the playlist under its three URL forms and a segment under its two.                   *)
 BlAdd(tbl, ip, now, dur) == [x \in DOMAIN tbl \cup {ip} |-> IF x = ip THEN now + dur ELSE tbl[x]]
 BlMay(tbl, ip, now) ==      \* set of allowed answers to "is content served?"
   IF ip \notin DOMAIN tbl THEN {TRUE}
   ELSE IF now < tbl[ip] THEN {FALSE} ELSE IF now > tbl[ip] THEN {TRUE} ELSE BOOLEAN
+BlIps == {"a", "b", "c"}
+BlFams == {"v4", "v6"}
+BlTbl(dur) == BlAdd(BlAdd(<<>>, "a", 0, dur), "c", 0, dur + 5)
 BlProbeOk(dur, p) ==
-  LET tbl == BlAdd(<<>>, "a", 0, dur) IN
-  /\ p.m3u8 \in BlMay(tbl, p.ip, p.k)
-  /\ p.ts \in BlMay(tbl, p.ip, p.k)
+  /\ p.ip \in BlIps
+  /\ Len(p.got) = 5
+  /\ \A i \in DOMAIN p.got : p.got[i] \in BlMay(BlTbl(dur), p.ip, p.k)
+
+---------------------------------------------------------------------------
+(* (c') spellings of one HLS request.  The admission gate (simple-auth), the black-list check     *)
+(* and the file server each interpret the request path; the property's iff is about what comes    *)
+(* back: whatever path yields playlist content of a stream must have carried the secret of that   *)
+(* stream when the flag is on, whatever path yields any content must come from an address that    *)
+(* is not listed, and the documented spellings are served when admitted.  The driver plants       *)
+(* tagged files for the streams cam1 and CAM1; o = [what, stream] names the tag that came back.   *)
+HpShapes   == {"flat", "dir", "rec", "tsflat", "tsdir"}   \* /hls/<s>.m3u8 /hls/<s>/playlist.m3u8 /hls/<s>/record.m3u8
+                                                           \* /hls/<s>-1-0.ts /hls/<s>/<s>-1-0.ts
+HpPrefixes == {"hls", "HLS", "%68ls"}
+HpStreams  == {"cam1", "CAM1", "Cam1", "%63am1"}
+HpFnames   == {"lower", "upper", "mixed", "esc"}           \* playlist PLAYLIST Playlist %70laylist (record likewise)
+HpExtM     == {"m3u8", "M3U8", "M3u8", "m3u%38", "%6d3u8"}
+HpExtT     == {"ts", "TS", "Ts", "t%73"}
+HpSlashes  == {"none", "trail", "dupMid", "dupHead", "dot"} \* x/  <dir>//<file>  /hls//x  /hls/./x
+HpForms    == {"absent", "wrong", "s_cam1", "s_CAM1"}      \* secret derived from the name cam1 / CAM1
+HpCfgs     == {"none", "hls", "allbuthls", "all"}          \* simple-auth flags that are on
+HpIsTs(p) == p.shape \in {"tsflat", "tsdir"}
+HpWellFormed(p) ==
+  /\ p.shape \in HpShapes /\ p.prefix \in HpPrefixes /\ p.stream \in HpStreams /\ p.slash \in HpSlashes
+  /\ p.ext \in (IF HpIsTs(p) THEN HpExtT ELSE HpExtM)
+  /\ p.fname \in (IF p.shape \in {"dir", "rec"} THEN HpFnames ELSE {"lower"})
+HpDev(p) == (IF p.prefix = "hls" THEN 0 ELSE 1) + (IF p.stream = "cam1" THEN 0 ELSE 1)
+            + (IF p.fname = "lower" THEN 0 ELSE 1) + (IF p.ext \in {"m3u8", "ts"} THEN 0 ELSE 1)
+            + (IF p.slash = "none" THEN 0 ELSE 1)
+\* the documented URL forms of pkg/hls/path_strategy.go for a stream that exists
+HpCanon(p) == /\ p.prefix = "hls" /\ p.stream \in {"cam1", "CAM1"} /\ p.fname = "lower"
+              /\ p.ext \in {"m3u8", "ts"} /\ p.slash = "none"
+HpWhat(p) == IF HpIsTs(p) THEN "ts" ELSE IF p.shape = "rec" THEN "record" ELSE "playlist"
+HpGuarded(cfg) == cfg \in {"hls", "all"}
+HpSecretOf(form) == CASE form = "s_cam1" -> "cam1" [] form = "s_CAM1" -> "CAM1" [] OTHER -> ""
+HpObsSpace == {[what |-> w, stream |-> s] : w \in {"none", "playlist", "record", "ts", "other"}, s \in {"", "cam1", "CAM1"}}
+HpOk(cfg, p, form, listed, o) ==
+  /\ o.what \in {"none", "playlist", "record", "ts"}                \* never bytes that are no planted file
+  /\ (o.what = "none") = (o.stream = "")
+  /\ listed => o.what = "none"
+  /\ (HpGuarded(cfg) /\ o.what \in {"playlist", "record"}) => HpSecretOf(form) = o.stream
+  /\ (HpCanon(p) /\ ~listed /\ (HpIsTs(p) \/ ~HpGuarded(cfg) \/ HpSecretOf(form) = p.stream))
+       => o = [what |-> HpWhat(p), stream |-> p.stream]
+HpAllowed(cfg, p, form, listed) == {o \in HpObsSpace : HpOk(cfg, p, form, listed, o)}
+
+(* spellings of one HTTP-FLV / HTTP-TS pull: /live/<s>.flv, a publisher exists for cam1 only     *)
+SvPds     == {"flv_sub", "ts_sub"}
+SvStreams == {"cam1", "CAM1", "%63am1"}
+SvExts    == {"lower", "upper", "esc"}                     \* .flv .FLV .fl%76 / .ts .TS .t%73
+SvSlashes == {"none", "trail", "dup"}
+SvForms   == {"absent", "s_cam1", "s_CAM1"}
+SvCanon(p) == p.stream = "cam1" /\ p.ext = "lower" /\ p.slash = "none"
+SvOk(on, pd, p, form, o) ==
+  /\ (o.resp \/ o.listed) => (~on \/ form = "s_cam1")     \* media of cam1 only with the secret of cam1
+  /\ ~o.pub
+  /\ (SvCanon(p) /\ (~on \/ form = "s_cam1")) => o \in SaObs(pd, TRUE)
 
 ---------------------------------------------------------------------------
 (* (d) path confinement.  Paths are sequences of segments relative to the directory that holds  *)
@@ -150,8 +226,12 @@ TokInfo(t) ==
     [] t = "name.m3u8"     -> [seg |-> "name.m3u8", ft |-> "m3u8", stem |-> "name", ts |-> ""]
     [] t = "name-1-2.ts"   -> [seg |-> "name-1-2.ts", ft |-> "ts", stem |-> "", ts |-> "name"]
     [] t = "hls-1-2.ts"    -> [seg |-> "hls-1-2.ts", ft |-> "ts", stem |-> "", ts |-> "hls"]
+    \* the same in another letter case: not a documented form (no target), must stay inside all the same
+    [] t = "..-1-2.TS"     -> [seg |-> "..-1-2.TS", ft |-> "", stem |-> "", ts |-> ""]
+    [] t = "...M3U8"       -> [seg |-> "...M3U8", ft |-> "", stem |-> "", ts |-> ""]
+    [] t = "PLAYLIST.M3U8" -> [seg |-> "PLAYLIST.M3U8", ft |-> "", stem |-> "", ts |-> ""]
 ReqTokens == {"name", ".", "..", "", "%2e%2e", "..-1-2.ts", "...m3u8", "playlist.m3u8", "record.m3u8",
-              "name.m3u8", "name-1-2.ts"}
+              "name.m3u8", "name-1-2.ts", "..-1-2.TS", "...M3U8", "PLAYLIST.M3U8"}
 Segs(req) == [i \in DOMAIN req |-> TokInfo(req[i]).seg]
 
 (* The HTTP layer (net/http ServeMux, pattern /hls/) hands a request to the handler only if its  *)
